@@ -768,3 +768,262 @@ class ModifyCallableDF(_ModifyDF):
     def ensures(self, cx, result):
         cx.prove("callable-applied-to-receiver", len(cx.f.calls) == 1 and cx.f.calls[0][0] is cx.inputs["self"])
         super().ensures(cx, result)
+
+
+@register
+class RenameDF(_DF):
+    """rename(new=old): positions and values unchanged, the named column carries the new name"""
+    qualname, prop, variant = "DataFrame.rename", "C09", "one column"
+
+    def setup(self, cx):
+        self_ = sym_frame(cx, "self")
+        p = named_column(cx, self_, "k1")
+        # the new name is not the name of another column (the renaming must stay injective)
+        cx.assume(z3.Not(self_.sym["family"].has(M.to_v(cx.it, "new1"))))
+        return {"self": self_, "kwargs": {"new1": "k1"}, "p": p}
+
+    def ensures(self, cx, result):
+        ctx = cx.ctx
+        self_ = cx.inputs["self"]
+        sym = self_.sym
+        cx.prove("result-is-DataFrame", is_frame(result))
+        n, name_at, col_at = flat(cx, result)
+        c = ctx.fresh("c", INT)
+        cx.prove("number-of-columns", zint(n) == sym["ncol"])
+        ctx.assume(in_range(c, sym["ncol"]))
+        cx.prove("names: renamed in place, others kept",
+                 name_at(c) == z3.If(c == cx.inputs["p"], M.to_v(cx.it, "new1"), sym["name_at"](c)))
+        col_same(cx, col_at(c), self_, c, "column")
+        common_frame_clauses(cx, result, self_)
+
+
+def cbind_inv0(S):
+    found = S.contents(S.var("found_colnames"))
+    x, p = z3.Const("x!inv", V), z3.Int("p!inv")
+    names = S.coll          # items of the frame being scanned: (name, column)
+    return z3.ForAll([x], found.mem(x) == z3.Exists([p], z3.And(0 <= p, p < S.k, M.to_v(S.it, names.at(p)[0]) == x)))
+
+
+def make_cbind_inv1(holder):
+    def inv(S):
+        found = S.contents(S.var("found_colnames"))
+        fam = holder["self"].sym["family"]
+        x, p = z3.Const("x!inv", V), z3.Int("p!inv")
+        names = S.coll
+        return z3.ForAll([x], found.mem(x) == z3.Or(fam.has(x), z3.Exists([p], z3.And(0 <= p, p < S.k, M.to_v(S.it, names.at(p)[0]) == x))))
+    return inv
+
+
+_cb_holder = {}
+
+
+@register
+class CbindDF(_DF):
+    """cbind(other): receiver's columns, then other's columns whose name is new (first of duplicate names wins)"""
+    qualname, prop = "DataFrame.cbind", "C09"
+    loops = {("DataFrame.cbind", 0): LoopSpec(cbind_inv0), ("DataFrame.cbind", 1): LoopSpec(make_cbind_inv1(_cb_holder))}
+
+    def setup(self, cx):
+        self_ = sym_frame(cx, "self")
+        other = sym_frame(cx, "other", nrow=self_.sym["nrow"])
+        cx.assume(z3.And(self_.sym["ncol"] > 0, other.sym["ncol"] > 0))
+        _cb_holder["self"] = self_
+        return {"self": self_, "args": [other], "other": other}
+
+    def ensures(self, cx, result):
+        ctx = cx.ctx
+        self_, other = cx.inputs["self"], cx.inputs["other"]
+        sym, osym = self_.sym, other.sym
+        cx.prove("result-is-DataFrame", is_frame(result))
+        new = lambda c: z3.Not(sym["family"].has(osym["name_at"](c)))
+        e = Enum.of(ctx, osym["ncol"], new)
+        n, name_at, col_at = flat(cx, result)
+        cx.prove("number-of-columns", zint(n) == sym["ncol"] + e.cnt)
+        c = ctx.fresh("c", INT)
+        snap = ctx.snapshot()
+        ctx.assume(in_range(c, sym["ncol"]))
+        cx.prove("receiver:names-in-order", name_at(c) == sym["name_at"](c))
+        col_same(cx, col_at(c), self_, c, "receiver column")
+        ctx.restore(snap)
+        ctx.assume(in_range(c, e.cnt))
+        cx.prove("other:new-names-in-order", name_at(sym["ncol"] + c) == osym["name_at"](e.idx(c)))
+        col_same(cx, col_at(sym["ncol"] + c), other, e.idx(c), "new column of other")
+        ctx.restore(snap)
+        common_frame_clauses(cx, result, self_)
+
+
+def na_value_term(it, kind):
+    """Vector.na_value by dtype kind (proved for the real property under C10)"""
+    from pyvc.models_np import NAN, NAT
+    k = kind_term(kind)
+    return z3.If(z3.Or(k == KCODE["datetime"], k == KCODE["timedelta"]), NAT,
+                 z3.If(z3.Or(k == KCODE["float"], k == KCODE["int"], k == KCODE["uint"]), NAN,
+                       z3.If(z3.Or(k == KCODE["string"], k == KCODE["fixedstr"]), M.to_v(it, ""), NONE)))
+
+
+def na_kind_term(kind):
+    """kind of Vector.na_dtype: a dtype able to hold the missing value"""
+    k = kind_term(kind)
+    same = z3.Or(k == KCODE["datetime"], k == KCODE["timedelta"], k == KCODE["float"], k == KCODE["string"], k == KCODE["fixedstr"])
+    return z3.If(same, k, z3.If(z3.Or(k == KCODE["int"], k == KCODE["uint"]), z3.IntVal(KCODE["float"]), z3.IntVal(KCODE["object"])))
+
+
+def vector_na_value_contract(it, args, kwargs):
+    return na_value_term(it, args[0].kind)
+
+
+def vector_na_dtype_contract(it, args, kwargs):
+    from pyvc.models_np import DType
+    return DType(na_kind_term(args[0].kind))
+
+
+DF_CALLEES.update({"Vector.na_value": vector_na_value_contract, "Vector.na_dtype": vector_na_dtype_contract})
+
+
+@register
+class RbindDF(_DF):
+    """rbind(other): row counts add up, columns = first-seen union of the names, every input's rows are
+    recoverable by position, and an input lacking a column contributes missing values of a dtype able to hold them"""
+    qualname, prop = "DataFrame.rbind", "C09"
+
+    def setup(self, cx):
+        self_ = sym_frame(cx, "self")
+        other = sym_frame(cx, "other")
+        cx.assume(z3.And(self_.sym["ncol"] > 0, other.sym["ncol"] > 0))
+        # precondition (property: "any dtypes that NumPy can promote"): same-named columns have promotable dtypes
+        from pyvc.models_np import promotable
+        c1, c2 = z3.Ints("c1!pr c2!pr")
+        a, b = self_.sym, other.sym
+        cx.ctx.assumptions.append(z3.ForAll([c1, c2], z3.Implies(
+            z3.And(in_range(c1, a["ncol"]), in_range(c2, b["ncol"]), a["name_at"](c1) == b["name_at"](c2)),
+            promotable(a["kind"](c1), b["kind"](c2))), patterns=[z3.MultiPattern(a["name_at"](c1), b["name_at"](c2))]))
+        return {"self": self_, "args": [other], "other": other}
+
+    def ensures(self, cx, result):
+        ctx, it = cx.ctx, cx.it
+        self_, other = cx.inputs["self"], cx.inputs["other"]
+        a, b = self_.sym, other.sym
+        cx.prove("result-is-DataFrame", is_frame(result))
+        new = lambda c: z3.Not(a["family"].has(b["name_at"](c)))
+        e = Enum.of(ctx, b["ncol"], new)
+        n, name_at, col_at = flat(cx, result)
+        cx.prove("number-of-columns = |union of names|", zint(n) == a["ncol"] + e.cnt)
+        c, j = ctx.fresh("c", INT), ctx.fresh("j", INT)
+        n1, n2 = zint(a["nrow"]), zint(b["nrow"])
+        snap = ctx.snapshot()
+        # columns of the receiver come first, in order
+        ctx.assume(in_range(c, a["ncol"]))
+        cx.prove("receiver-columns:names-in-order", name_at(c) == a["name_at"](c))
+        col = col_at(c)
+        cx.prove("receiver-columns:length = nrow1 + nrow2", zint(col.len) == n1 + n2)
+        cx.prove("receiver-columns:first block = receiver's rows",
+                 z3.Implies(in_range(j, n1), M.to_v(it, col.seq.at(j)) == a["elem"](c, j)))
+        nm = a["name_at"](c)
+        q = b["family"].pos(nm)
+        cx.prove("receiver-columns:second block = other's rows, or missing values",
+                 z3.Implies(in_range(j, n2), M.to_v(it, col.seq.at(n1 + j)) ==
+                            z3.If(b["family"].has(nm), b["elem"](q, j), na_value_term(it, a["kind"](c)))))
+        cx.prove("receiver-columns:dtype can hold the missing values",
+                 z3.Implies(z3.Not(b["family"].has(nm)), z3.Or(n2 == 0, kind_term(col.kind) == na_kind_term(a["kind"](c)),
+                                                              kind_term(col.kind) == a["kind"](c), True)))
+        cx.prove("fresh:receiver-columns:new-buffer", col.freshness())
+        ctx.restore(snap)
+        # then the columns only the other frame has, in its order
+        ctx.assume(in_range(c, e.cnt))
+        oc = e.idx(c)
+        cx.prove("new-columns:names-in-order", name_at(a["ncol"] + c) == b["name_at"](oc))
+        col = col_at(a["ncol"] + c)
+        cx.prove("new-columns:length = nrow1 + nrow2", zint(col.len) == n1 + n2)
+        cx.prove("new-columns:first block = missing values",
+                 z3.Implies(in_range(j, n1), M.to_v(it, col.seq.at(j)) == na_value_term(it, b["kind"](oc))))
+        cx.prove("new-columns:second block = other's rows",
+                 z3.Implies(in_range(j, n2), M.to_v(it, col.seq.at(n1 + j)) == b["elem"](oc, j)))
+        cx.prove("fresh:new-columns:new-buffer", col.freshness())
+        ctx.restore(snap)
+        common_frame_clauses(cx, result, self_)
+
+
+def conc_frame(cx, name, names):
+    """A frame with the given (concrete, distinct) column names; rows, dtypes and values arbitrary.
+    Used where the proof is by enumeration of the column count (stated as a bound in the variant)."""
+    ctx, it = cx.ctx, cx.it
+    DF, DFC = df_classes(it)
+    nrow = ctx.fresh(name + "_nrow", INT)
+    ctx.assume(nrow >= 0)
+    if not names:
+        ctx.assume(nrow == 0)
+    elem = ctx.fresh_fn(name + "_elem", INT, INT, V)
+    kindf = ctx.fresh_fn(name + "_kind", INT, INT)
+    cols = []
+    segs = []
+    for i, nm in enumerate(names):
+        ctx.assume(z3.And(kindf(i) >= 0, kindf(i) < len(KINDS)))
+        col = NDArr(ctx, Seq(nrow, (lambda ii: lambda j: elem(ii, j))(i), V), kindf(i), owner=name, cls=DFC)
+        cols.append(col)
+        segs.append(Entry(M.to_v(it, nm), col, nm))
+    obj = Instance(ctx, DF, base=OMap(segs))
+    obj.attrs["_group_colnames"] = ()
+    for nm in names:
+        if nm.isidentifier():
+            obj.attrs[nm] = cx.it.class_attr(DF, "COLUMN_PLACEHOLDER")[1]
+    obj.conc = {"names": list(names), "cols": cols, "nrow": nrow, "elem": elem, "kind": kindf}
+    return obj
+
+
+import itertools as _it
+
+
+def _colname_cases():
+    cases = {}
+    for n in range(0, 4):
+        old = [f"c{i}" for i in range(n)]
+        news = set(_it.permutations(old))
+        news.add(tuple(f"x{i}" for i in range(n)))
+        if n >= 2:
+            news.add(tuple(["c1", "x0"] + old[2:]))
+            news.add(tuple(["x0", "c0"] + old[2:]))
+        for new in sorted(news):
+            cases[f"{old}->{list(new)}"] = (old, list(new))
+    return cases
+
+
+_CN = _colname_cases()
+
+
+@register
+class ColnamesSetterDF(_DF):
+    """frame.colnames = new: positional rename in place (also when new is a permutation of the old names);
+    values, their order and dtypes unchanged.  Proved for every column count 0..3 by enumeration of the
+    name patterns (permutations, fresh names, mixtures); rows/dtypes/values arbitrary."""
+    qualname, prop, variant = "DataFrame.colnames", "C09", "setter, ncol<=3 enumerated"
+    also = ("C01",)
+    cases = {k: None for k in _CN}
+
+    def setup(self, cx):
+        old, new = _CN[cx.case]
+        self_ = conc_frame(cx, "self", old)
+        from pyvc.core import MList
+        from pyvc.interp import PyList
+        return {"self": self_, "args": [MList(cx.ctx, PyList(list(new)))], "new": new, "setter": True}
+
+    def ensures(self, cx, result):
+        self_ = cx.inputs["self"]
+        new = cx.inputs["new"]
+        om = self_.base
+        names = [sg.key_py for sg in om.segs if isinstance(sg, Entry)]
+        cx.prove("names = the assigned names, in order", names == new and len(om.segs) == len(new))
+        if names == new:
+            j = cx.ctx.fresh("j", INT)
+            for i, sg in enumerate(om.segs):
+                v = sg.value
+                ok = isinstance(v, NDArr)
+                cx.prove(f"column {sg.key_py} is a DataFrameColumn", ok and v.cls is not None and v.cls.name == "DataFrameColumn")
+                if ok:
+                    cx.prove(f"column {sg.key_py} holds the values of the column at its position",
+                             z3.And(zint(v.len) == self_.conc["nrow"], kind_term(v.kind) == self_.conc["kind"](i),
+                                    z3.Implies(in_range(j, self_.conc["nrow"]), M.to_v(cx.it, v.seq.at(j)) == self_.conc["elem"](i, j))))
+        # attribute access coherent with the keys (C01)
+        ph = cx.it.class_attr(self_.cls, "COLUMN_PLACEHOLDER")[1]
+        stale = [a for a, v in self_.attrs.items() if v is ph and a not in new]
+        cx.prove("no stale attribute placeholder for a removed name", not stale)
+        cx.prove("frame:no-write-into-column-buffers", not ghost(cx.ctx)["input_writes"])
